@@ -428,7 +428,7 @@ def correspondence(ctx):
              # (3) the program tree of the real output = outl of the modelled pass (same nesting, ops, barrier places)
              "Eval vm_compute in failing (fun c => match c with (fl, bs, p0, T, t) => rshapel_eqb (outl (barriers fl) T) t end) cs.\n"
              # statistics: programs wholly in the SameLevel class (C13_tree_pass_all_guarded applies)
-             "Eval vm_compute in failing (fun c => match c with (fl, bs, p0, T, t) => negb (sl_program p0 T) end) (firstn 8 cs).\n"
+             "Eval vm_compute in failing (fun c => match c with (fl, bs, p0, T, t) => negb (sl_program p0 T) end) (firstn 2 cs).\n"
              for sh in shards]
     res = vlib.coq_eval_many("c13l1_", texts, timeout=600)
     nsl = 0
@@ -445,7 +445,7 @@ def correspondence(ctx):
             dis.append({"name": "L1:output-tree shape", **meta[si * SH + idx]})
         nsl += len(lists[3])
     ctx.extra["L1_programs_in_SameLevel_class"] = nsl
-    ctx.extra["L1_programs_classified"] = sum(min(8, len(sh)) for sh in shards)
+    ctx.extra["L1_programs_classified"] = sum(min(2, len(sh)) for sh in shards)
     return dis
 
 
